@@ -162,3 +162,107 @@ def _init_cases():
 
 
 contract('bycycle.objs.fit.BycycleBase.__init__', cases=_init_cases(), modifies=['self', 'thresholds'])
+
+
+# ------------------------------------------------------------------------------------------------ BycycleGroup.fit (C11, C12, C14)
+# Group level: signals, option values, tables and model objects are opaque values.  What is verified is what fit adds:
+# which settings reach the group function, that its result is stored, and that models[i] (models[i][j]) is a Bycycle
+# object with the group's settings, loaded with the table and the signal AT THE SAME POSITION.
+from vf.spec import form                                 # noqa: E402
+from vf.engine import Unsupported, zbool, lift, to_real, _opq   # noqa: E402
+from vf.values import Opaque, Obj                        # noqa: E402
+from vf import grid as G                                  # noqa: E402
+from vf.calls import options_term                         # noqa: E402
+from . import group_features as GFm                       # noqa: E402,F401  (forms CF, drop_rs, epoched)
+
+GKW = ("options(center_extrema=self.center_extrema, burst_method=self.burst_method, burst_kwargs=self.burst_kwargs, "
+       "threshold_kwargs=self.thresholds, find_extrema_kwargs=self.find_extrema_kwargs)")
+
+
+@form('options')
+def f_options(E, node):
+    """options(k1=v1, ...): the option dictionary {k1: v1, ...} as an opaque option set (same constructor as a dict literal
+    with these keys in this order)"""
+    from vf.values import SDict
+    items = {k.arg: [True, E.eval(k.value)] for k in node.keywords}
+    return _opq(options_term(E, SDict(-1, items)))
+
+
+@form('model_of')
+def f_model_of(E, node):
+    """model_of(self, table, signal, fs, f_range): a Bycycle object constructed with the group's six settings and then loaded
+    with the given table and signal"""
+    slf, df, sig, fs, fr = [E.eval(a) for a in node.args]
+    ts = []
+    for nm in ('center_extrema', 'burst_method', 'burst_kwargs', 'thresholds', 'find_extrema_kwargs'):
+        v = slf.attrs[nm]
+        ts.append(G.NONE_OPTS if v is None else v.t)
+    rs = slf.attrs['return_samples']
+    rs_t = zbool(rs) if not isinstance(rs, bool) else z3.BoolVal(rs)
+    new = G.BYC_NEW(*(ts + [rs_t]))
+    return _opq(G.BYC_LOADED(new, df.t, sig.t, to_real(lift(fs)), to_real(lift(fr[0])), to_real(lift(fr[1]))))
+
+
+@form('expanded')
+def f_expanded(E, node):
+    v = E.eval(node.args[0])
+    return _opq(G.EXPANDED(v.t))
+
+
+def _group_cases():
+    out = []
+    attrs = {'center_extrema': 'opaque', 'burst_method': 'opaque', 'burst_kwargs': 'opaque', 'thresholds': 'optdict',
+             'find_extrema_kwargs': 'opaque', 'return_samples': BOOL, 'sigs': 'none', 'fs': 'none', 'f_range': 'none',
+             'axis': 'none', 'n_jobs': 'none', 'n_dims': 'none', 'df_features': 'none', 'models': 'none', 'sig': 'none'}
+    base = {'self': ('obj', 'bycycle.objs.fit.BycycleGroup', attrs), 'fs': REAL, 'f_range': ('tuple', [REAL, REAL]),
+            'n_jobs': INT, 'progress': ('const', None)}
+    req = ["n_jobs >= 1 or n_jobs == -1", "expanded(self.thresholds) == self.thresholds"]
+    stored = ["self.sigs is sigs", "same(self.fs, fs) and same(self.f_range, f_range)"]
+    MODEL2 = "model_of(self, self.df_features[i], sigs[i], fs, f_range)"
+    MODEL3 = "model_of(self, self.df_features[i][j], sigs[i][j], fs, f_range)"
+    # ---- 2-D input
+    for axis, entry, extra_req in ((0, "CF(sigs[i], fs, f_range, self.return_samples, drop_rs(%s))" % GKW, []),
+                                   (None, "epoched(sigs, fs, f_range, %s, i)" % GKW, ["sigs.shape[1] >= 1"])):
+        out.append(dict(
+            label='2d,axis=%s' % (axis,),
+            params=dict(base, sigs=('grid', 1, True), axis=('const', axis)),
+            requires=req + extra_req,
+            ensures=stored + [
+                "len(self.df_features) == len(sigs) and len(self.models) == len(sigs)",
+                # C11 / C13 through the group function's contract: position i holds the analysis of row i (epoch i)
+                "forall(i, 0 <= i < len(sigs), self.df_features[i] == %s)" % entry,
+                # C14: models mirror df_features and sigs position by position
+                "forall(i, 0 <= i < len(sigs), self.models[i] == %s)" % MODEL2],
+            loops={1: dict(index='k', mutates=['self.models'], invariant=[
+                "len(self.models) == len(sigs)",
+                "forall(i, 0 <= i < k, self.models[i] == %s)" % MODEL2])}))
+    # ---- 3-D input
+    N0, N1 = "sigs.shape[0]", "sigs.shape[1]"
+    for axis, entry in (((0, 1), "CF(sigs[i][j], fs, f_range, self.return_samples, drop_rs(%s))" % GKW),
+                        (0, "epoched(sigs[i], fs, f_range, %s, j)" % GKW),
+                        (1, "epoched(sigs[:, j], fs, f_range, %s, i)" % GKW)):
+        out.append(dict(
+            label='3d,axis=%s' % (axis,),
+            params=dict(base, sigs=('grid', 2, True), axis=('const', axis)),
+            requires=req + ["sigs.shape[2] >= 1", "%s >= 1 and %s >= 1" % (N0, N1)],
+            ensures=stored + [
+                "len(self.df_features) == %s and len(self.models) == %s" % (N0, N0),
+                "forall(i, 0 <= i < %s, len(self.models[i]) == %s)" % (N0, N1),
+                # C12: the table at [i][j] is the analysis of the signal(s) at that position
+                "forall((i, j), 0 <= i < %s and 0 <= j < %s, self.df_features[i][j] == %s)" % (N0, N1, entry),
+                "forall((i, j), 0 <= i < %s and 0 <= j < %s, self.models[i][j] == %s)" % (N0, N1, MODEL3)],
+            loops={1: dict(index='p', mutates=['self.models'], invariant=[
+                       "len(self.models) == %s" % N0,
+                       "forall((i, j), 0 <= i < p and 0 <= j < %s, self.models[i][j] == %s)" % (N1, MODEL3)]),
+                   2: dict(index='q', mutates=['self.models'], invariant=[
+                       "len(self.models) == %s" % N0,
+                       "forall((i, j), 0 <= i < dim0 and 0 <= j < %s, self.models[i][j] == %s)" % (N1, MODEL3),
+                       "forall(j, 0 <= j < q, self.models[dim0][j] == %s)" % MODEL3.replace('[i]', '[dim0]')])}))
+    # C19: any other dimensionality is rejected
+    for nd in (1, 4):
+        out.append(dict(label='%dd' % nd, params=dict(base, sigs=('nd', nd), axis=('const', 0)),
+                        raises={'ValueError': 'True'}))
+    return out
+
+
+contract('bycycle.objs.fit.BycycleGroup.fit', cases=_group_cases(), modifies=['self', 'self.thresholds'])
